@@ -555,6 +555,15 @@ impl<const M: usize> World<M> {
             if post.cap != usable {
                 self.v(6, "reset_capacity_not_full", "reset_capacity_not_full".into(), format!("after reset chunk_capacity()={} but the kept block of {} bytes has {} usable", post.cap, blk.size, usable));
             }
+            // "any history after it": first a request that is too big for the kept block while the allocator refuses
+            // everything; it must fail and the arena must still hold its block with its full capacity
+            let b = self.bump.take().unwrap();
+            let r0 = arena_op(envp, self.step, self.arena, &[Answer::RefuseRest], || b.try_alloc_layout(Layout::from_size_align(usable + 1, 1).unwrap()).is_ok());
+            let cap_after = b.chunk_capacity();
+            self.bump = Some(b);
+            if r0 == Ok(false) && (self.e().live_count(self.arena) != 1 || cap_after != post.cap) {
+                self.v(6, "reset_block_lost_by_refused_request", "reset_block_lost_by_refused_request".into(), format!("after reset, a refused request of {} bytes left the arena with {} block(s) and chunk_capacity()={} (was 1 block, {})", usable + 1, self.e().live_count(self.arena), cap_after, post.cap));
+            }
             let b = self.bump.take().unwrap();
             let r = arena_op(envp, self.step, self.arena, &[Answer::Refuse], || b.try_alloc_layout(Layout::from_size_align(usable, 1).unwrap()).map(|p| p.as_ptr() as usize).ok());
             self.bump = Some(b);
@@ -614,6 +623,7 @@ impl<const M: usize> World<M> {
         };
         self.bump = Some(b);
         self.note_requests();
+        self.hops = self.hops.saturating_add(1);
         self.cov |= cov::THREAD_HOP;
         let o = match r {
             Ok(Some(a)) => {
